@@ -134,7 +134,8 @@ pub trait ExBufRead: std::io::Read {
             r is Err ==> (*final(self)).remaining() == (*old(self)).remaining(),
             (*old(self)).reliable() ==> r is Ok;
     fn consume(&mut self, amt: usize)
-        requires amt <= (*old(self)).buffered(),
+        // only what fill_buf exposed may be consumed
+        requires amt <= (*old(self)).buffered(),   // [IO.consume.buffered C13 C07]
         ensures
             (*final(self)).src_eq(&*old(self)),
             (*final(self)).reliable() == (*old(self)).reliable(),
